@@ -25,7 +25,7 @@ S = z3.StringSort()
 I = z3.IntSort()
 
 
-GROUP_PROP = {"sync": "C01", "wire": "C02", "async": "C10", "result": "C05"}
+GROUP_PROP = {"sync": "C01", "wire": "C02", "async": "C10", "result": "C05", "roundtrip": "C04", "miss": "C07"}
 
 
 def pid(E, group, q):
@@ -139,27 +139,50 @@ def readline_contract(E, st, args, kwargs, selfv, site):
     st.assume(newpos >= 0, newpos <= z3.Length(r["inp"]),
               z3.Concat(line, CRLF, rest, sock.unread(st)) == Sx,
               z3.Not(z3.Contains(z3.Concat(line, z3.StringVal("\r")), CRLF)))
-    unit_cut(E, st, sock, line, rest, "readline")
-    outs.append(Outcome("return", st, TupleV([BytesV(rest), BytesV(line)])))
+    for s2 in unit_cut(E, st, sock, line, rest, "readline"):
+        outs.append(Outcome("return", s2, TupleV([BytesV(rest), BytesV(line)])))
     return outs
 
 
 def unit_cut(E, st, sock, line, rest, what):
-    """Cut lemma at a reader call: when the scenario knows the unit structure of the stream
-    (ghost 'unit_hint' -> (expected line, expected remainder)), prove from the reader's contract and the unit
-    facts that the reader returned exactly that unit (uniqueness of the first split), then use it."""
+    """Cut lemma at a reader call: when the scenario knows the unit structure of the stream (ghost 'unit_hint' ->
+    (expected line, expected remainder), or a list of (condition, line, remainder) cases), prove from the reader's
+    contract and the unit facts that the reader returned exactly that unit (uniqueness of the first split), then
+    use it. Returns the resulting state(s)."""
     hint = st.ghost.get("unit_hint")
-    if hint is None:
-        return
-    h = hint(st)
+    h = hint(st) if hint is not None else None
     if h is None:
-        return
-    exp_line, exp_rest = h
-    fact = z3.And(line == exp_line, z3.Concat(rest, sock.unread(st)) == exp_rest)
-    k = st.ghost.get("cut_count", 0)
-    st.ghost["cut_count"] = k + 1
-    E.oblige("%scut/%s-returns-the-next-unit#%d%s" % (E.oid_prefix, what, k, E.case_suffix), st, fact, kind="lemma", func=B + ":_" + what)
-    st.assume(fact)
+        return [st]
+    cases = h if isinstance(h, list) else [(z3.BoolVal(True), h[0], h[1])]
+    out = []
+    reader_facts = list(st.pc[-2:])          # the two facts of the reader's contract (split equation, no earlier terminator)
+    for j, case in enumerate(cases):
+        cond, exp_line, exp_rest = case[:3]
+        s2 = st.fork() if j < len(cases) - 1 else st
+        s2.assume(cond)
+        if not E.feasible(s2):
+            continue
+        fact = z3.And(line == exp_line, z3.Concat(rest, sock.unread(s2)) == exp_rest)
+        k = s2.ghost.get("cut_count", 0)
+        s2.ghost["cut_count"] = k + 1
+        if len(case) >= 5:
+            # two small steps instead of one big VC: (a) the stream at the call is the expected unit stream (full path
+            # condition); (b) uniqueness of the first split from the reader's two facts and the unit's two facts only
+            stream, support = case[3], case[4]
+            Sx = reader_facts[0].arg(1) if z3.is_eq(reader_facts[0]) else None
+            if Sx is None:
+                raise OutOfReach("reader contract facts not in the expected form")
+            E.oblige("%scut/%s-stream-at-the-call-is-the-expected-unit-stream#%d.%d%s" % (E.oid_prefix, what, k, j, E.case_suffix), s2, Sx == stream,
+                     kind="lemma", func=B + ":_" + what)
+            small = State()
+            small.pc = reader_facts + [Sx == stream] + list(support)
+            E.oblige("%scut/%s-returns-the-next-unit(uniqueness-of-the-first-split)#%d.%d%s" % (E.oid_prefix, what, k, j, E.case_suffix), small, fact,
+                     kind="lemma", func=B + ":_" + what)
+        else:
+            E.oblige("%scut/%s-returns-the-next-unit#%d.%d%s" % (E.oid_prefix, what, k, j, E.case_suffix), s2, fact, kind="lemma", func=B + ":_" + what)
+        s2.assume(fact)
+        out.append(s2)
+    return out
 
 
 def readsegment_contract(E, st, args, kwargs, selfv, site):
@@ -176,8 +199,8 @@ def readsegment_contract(E, st, args, kwargs, selfv, site):
     r["pos"] = newpos
     st.assume(newpos >= 0, newpos <= z3.Length(r["inp"]), z3.Concat(seg, tok.t, rest, sock.unread(st)) == Sx,
               z3.Not(z3.Contains(z3.Concat(seg, z3.SubString(tok.t, 0, z3.Length(tok.t) - 1)), tok.t)))
-    unit_cut(E, st, sock, seg, rest, "readsegment")
-    outs.append(Outcome("return", st, TupleV([BytesV(rest), BytesV(seg)])))
+    for s2 in unit_cut(E, st, sock, seg, rest, "readsegment"):
+        outs.append(Outcome("return", s2, TupleV([BytesV(rest), BytesV(seg)])))
     return outs
 
 
@@ -195,6 +218,7 @@ def readvalue_contract(E, st, args, kwargs, selfv, site):
     r["pos"] = newpos
     st.assume(newpos >= 0, newpos <= z3.Length(r["inp"]), z3.Length(Sx) >= size.t + 2, value == z3.SubString(Sx, 0, size.t),
               z3.Concat(rest, sock.unread(st)) == z3.SubString(Sx, size.t + 2, z3.Length(Sx) - size.t - 2))
+    readvalue_cut(E, st, sock, value, rest)
     outs.append(Outcome("return", st, TupleV([BytesV(rest), BytesV(value)])))
     return outs
 
@@ -541,6 +565,25 @@ def dec(t):
 DIGITS = z3.Plus(z3.Range("0", "9"))
 
 
+# ------------------------------------------------------------------ documented outcome table (C05, from the property statement)
+
+DOC_TABLE = {"STORED": True, "NOT_STORED": False, "EXISTS": False, "NOT_FOUND": None}
+DOC_VALID = {"set": ("STORED", "NOT_STORED"), "add": ("STORED", "NOT_STORED"), "replace": ("STORED", "NOT_STORED"),
+             "append": ("STORED", "NOT_STORED"), "prepend": ("STORED", "NOT_STORED"), "cas": ("STORED", "EXISTS", "NOT_FOUND")}
+PY_TRUE = z3.Function("py_bool", z3.BoolSort(), Py)(z3.BoolVal(True))
+PY_FALSE = z3.Function("py_bool", z3.BoolSort(), Py)(z3.BoolVal(False))
+PY_NONE = z3.Const("py_None", Py)
+
+
+def table_value(line):
+    """stored -> True, not stored -> False, exists (cas mismatch) -> False, not found -> None   (as Py values)"""
+    return z3.If(line == z3.StringVal("STORED"), PY_TRUE, z3.If(line == z3.StringVal("NOT_FOUND"), PY_NONE, PY_FALSE))
+
+
+def valid_line(verb, line):
+    return z3.Or([line == z3.StringVal(x) for x in DOC_VALID[verb]])
+
+
 # ------------------------------------------------------------------ _store_cmd against its contract
 
 def verify_store_cmd(E, prop, mode, verbs=("set", "cas"), flag_kinds=("none", "int", "bool", "str")):
@@ -716,14 +759,42 @@ def _store_case(E, prop, mode, q, verb, had_sock, nr, fk, encoding="ascii"):
         parts = [("stream-position", z3.Concat(buf.t, cur.unread(s)) == Rest(i)),
                  ("one-result-per-key-so-far", rn == i),
                  ("socket-still-open", z3.BoolVal(s.heap[cur.ref]["close_calls"] == 0))]
+        if isinstance(res, ghost.SymMapV):
+            vals, _cnt, present = res.get(s)
+            j = z3.Int("j")
+            parts.append(("results-map-each-key-to-the-documented-value-of-its-reply-line",
+                          z3.ForAll([j], z3.Implies(z3.And(0 <= j, j < i), z3.And(z3.Select(present, key_inj(j)),
+                                                                                   z3.Select(vals, key_inj(j)) == table_value(L(j)),
+                                                                                   valid_line(verb, L(j)))))))
         if E_.inv_mode == "assume":
             parts.append(("unit", z3.And(unit_facts(i))))
+            ks = s.env.get("keys")
+            if isinstance(ks, ghost.PyArrV):
+                j = z3.Int("j")
+                parts.append(("keys", z3.ForAll([j], z3.Implies(z3.And(0 <= j, j < n), ks.get(s)[0][j] == key_inj(j)))))
         return parts
+    a1, a2 = z3.Ints("dk1 dk2")
+    st.assume(z3.ForAll([a1, a2], z3.Implies(z3.And(0 <= a1, a1 < a2, a2 < n), key_inj(a1) != key_inj(a2))))      # dict keys are distinct
     E.loop_specs[(q, 1)] = LoopSpec(inv1, vars={"results": mk_results, "buf": mk_bytes, "line": mk_bytes}, shape="for $0 in $1", havoc=havoc1)
 
     outs = E.run_function(q, st, [name, values, IntV(expire), noreply], {"flags": flags, "cas": cas}, selfv=me)
     for o in outs:
         store_exit_obligations(E, prop, q, o, me, sock0, n, nr, FmtAll, mode)
+        if o.kind == "return":
+            s = o.st
+            rid_ = pid(E, "result", q)
+            j = z3.Int("j")
+            if nr == "noreply":
+                ok = isinstance(o.val, ghost.ConstMapV) and isinstance(o.val.value, BoolV) and z3.is_true(z3.simplify(o.val.value.t))
+                goal = z3.And(o.val.n == n, z3.ForAll([j], z3.Implies(z3.And(0 <= j, j < n), o.val.keys_arr[j] == key_inj(j)))) if ok else z3.BoolVal(False)
+                E.oblige("%s/post@ret(noreply:every-key-maps-to-True)%s" % (rid_, E.case_suffix), s, goal, func=q)
+            elif isinstance(o.val, ghost.SymMapV):
+                vals, _cnt, present = o.val.get(s)
+                goal = z3.ForAll([j], z3.Implies(z3.And(0 <= j, j < n), z3.And(z3.Select(present, key_inj(j)), z3.Select(vals, key_inj(j)) == table_value(L(j)),
+                                                                                valid_line(verb, L(j)))))
+                E.oblige("%s/post@ret(each-key-maps-to-the-documented-value-of-its-own-reply-line)%s" % (rid_, E.case_suffix), s, goal, func=q)
+            elif isinstance(o.val, DictV):
+                E.oblige("%s/post@ret(no-items:empty-result)%s" % (rid_, E.case_suffix), s, z3.And(n == 0, z3.BoolVal(len(s.heap[o.val.ref]) == 0)), func=q)
 
 
 def store_exit_obligations(E, prop, q, o, me, sock0, n, nr, FmtAll, mode):
@@ -1068,3 +1139,405 @@ def verify_delete_many(E, mode="exception"):
             elif is_subclass(o.val.cls, "Exception"):
                 E.oblige("%s/post@raise(Exception:Sync)%s" % (sid, E.case_suffix), s, sync(E, s, me), func=q)
     E.case_suffix = ""
+
+
+# ------------------------------------------------------------------ _fetch_cmd / _extract_value against their contract
+
+from pyvc.builtins_ax import split_len, split_item
+
+NOWS_TOKEN = z3.Plus(re_not_chars([0x20, 0x09, 0x0a, 0x0b, 0x0c, 0x0d], 0x2FFFF))
+deser = z3.Function("deserialize", Py, S, I, Py)
+
+
+def fetch_model(N, expect_cas):
+    """Reply of a faithful server to a fetch command (DESIGN 4.4): N item blocks, then one terminal line.
+    U(i) == Hdr(i) CRLF Dat(i) CRLF U(i+1);  Hdr(i) == 'VALUE ' W(i) ' ' dec(Fl(i)) ' ' dec(|Dat(i)|) [' ' Cs(i)];
+    U(N) == Term CRLF with Term any line that is not an item header (END, OK, an error line, garbage).
+    Dat(i) is arbitrary (binary safety): it may contain CRLF, 'END', 'VALUE ...'."""
+    U, Hdr, Dat, W, Cs = [z3.Function(n, I, S) for n in ("U", "Hdr", "Dat", "W", "Cs")]
+    Fl = z3.Function("Fl", I, I)
+    Term = z3.String("Term")
+
+    def header(i):
+        parts = [z3.StringVal("VALUE "), W(i), z3.StringVal(" "), dec(Fl(i)), z3.StringVal(" "), dec(z3.Length(Dat(i)))]
+        if expect_cas:
+            parts += [z3.StringVal(" "), Cs(i)]
+        return z3.Concat(*parts)
+
+    def facts(i):
+        ntok = 5 if expect_cas else 4
+        h = Hdr(i)
+        item = [U(i) == z3.Concat(h, CRLF, Dat(i), CRLF, U(i + 1)), h == header(i),
+                z3.InRe(W(i), NOWS_TOKEN), Fl(i) >= 0, Fl(i) < 2 ** 32,
+                z3.Not(z3.Contains(z3.Concat(h, z3.StringVal("\r")), CRLF)),            # lemma hdr-no-CRLF (tokens contain no CR)
+                # A-split on a line of single-space separated non-whitespace tokens
+                split_len(h) == ntok, split_item(h, 0) == z3.StringVal("VALUE"), split_item(h, 1) == W(i),
+                split_item(h, 2) == dec(Fl(i)), split_item(h, 3) == dec(z3.Length(Dat(i))),
+                # A-int on the two numeric tokens
+                z3.InRe(split_item(h, 2), DIGITS), z3.InRe(split_item(h, 3), DIGITS),
+                z3.StrToInt(split_item(h, 2)) == Fl(i), z3.StrToInt(split_item(h, 3)) == z3.Length(Dat(i))]
+        if expect_cas:
+            item += [split_item(h, 4) == Cs(i), z3.InRe(Cs(i), DIGITS)]
+        last = [U(N) == z3.Concat(Term, CRLF), z3.Not(z3.Contains(z3.Concat(Term, z3.StringVal("\r")), CRLF)),
+                z3.Not(z3.PrefixOf(z3.StringVal("VALUE"), Term))]
+        return [z3.Implies(z3.And(0 <= i, i < N), z3.And(item)), z3.And(last)]
+    return dict(U=U, Hdr=Hdr, Dat=Dat, W=W, Cs=Cs, Fl=Fl, Term=Term, facts=facts)
+
+
+def readvalue_cut(E, st, sock, value, rest):
+    hint = st.ghost.get("value_hint")
+    if hint is None:
+        return
+    h = hint(st)
+    if h is None:
+        return
+    exp_value, exp_rest = h
+    fact = z3.And(value == exp_value, z3.Concat(rest, sock.unread(st)) == exp_rest)
+    k = st.ghost.get("cut_count", 0)
+    st.ghost["cut_count"] = k + 1
+    E.oblige("%scut/readvalue-returns-the-data-block#%d%s" % (E.oid_prefix, k, E.case_suffix), st, fact, kind="lemma", func=B + ":_readvalue")
+    st.assume(fact)
+    st.ghost["it"] = st.ghost["it"] + 1
+
+
+def verify_fetch_cmd(E, mode="exception", names=("get", "gets")):
+    q = C + "._fetch_cmd"
+    install_env(E, mode)
+    E.contracts[B + ":check_key_helper"] = check_key_contract
+    E.inline |= {C + "._extract_value"}
+    for name in names:
+        expect_cas = name in ("gets", "gats")
+        with_expire = name in ("gat", "gats")
+        for had_sock in (True, False):
+            for klabel, keyv, kcons in key_cases():
+                E.case_suffix = "/%s,%s,%s" % (name, "live-socket" if had_sock else "no-socket", klabel)
+                _fetch_case(E, mode, q, name, expect_cas, with_expire, had_sock, keyv, kcons)
+    E.case_suffix = ""
+
+
+def _fetch_case(E, mode, q, name, expect_cas, with_expire, had_sock, keyv, kcons):
+    st = State()
+    set_faults(st, mode)
+    me, sock0 = mk_client(st, had_sock)
+    f = st.heap[me.ref]
+    st.assume(*kcons)
+    N = z3.Int("n_items")
+    st.assume(N >= 0)
+    M = fetch_model(N, expect_cas)
+    U, Hdr, Dat, W, Cs, Fl, Term = M["U"], M["Hdr"], M["Dat"], M["W"], M["Cs"], M["Fl"], M["Term"]
+    st.ghost["on_sendall"] = on_sendall_reply(lambda s, d: U(0))
+    st.ghost["reads"] = 0
+    st.ghost["it"] = z3.IntVal(0)
+    st.assume(*M["facts"](z3.IntVal(0)))
+    # cut hints: the next line is the header of item `it` (or the terminal line), the next data block is Dat(it)
+    def hint(s_):
+        it = s_.ghost["it"]
+        tail = z3.Concat(Dat(it), CRLF, U(it + 1))
+        return [(it < N, Hdr(it), tail, U(it), [U(it) == z3.Concat(Hdr(it), CRLF, tail), z3.Not(z3.Contains(z3.Concat(Hdr(it), z3.StringVal("\r")), CRLF))]),
+                (it >= N, Term, z3.StringVal(""), U(it), [U(it) == z3.Concat(Term, CRLF), z3.Not(z3.Contains(z3.Concat(Term, z3.StringVal("\r")), CRLF))])]
+    st.ghost["unit_hint"] = hint
+    st.ghost["value_hint"] = lambda s_: (Dat(s_.ghost["it"]), U(s_.ghost["it"] + 1))
+    defined, enc = enc_of(keyv, f["allow_unicode_keys"].t)
+    k = z3.Concat(f["key_prefix"].t, enc)
+    okey = E.inject(keyv, st)
+    sid, wid, rid_ = pid(E, "sync", q), pid(E, "wire", q), pid(E, "result", q)
+
+    def val_of(j):
+        d = deser(okey, Dat(j), Fl(j))
+        if expect_cas:
+            return z3.Function("py_tuple2", Py, Py, Py)(d, z3.Function("py_bytes", S, Py)(Cs(j)))
+        return d
+
+    def havoc(E_, s):
+        cur = s.heap[me.ref]["sock"]
+        if isinstance(cur, ghost.SockV):
+            r = s.heap[cur.ref]
+            r["pos"] = z3.Int(fresh_name("pos"))
+            s.assume(r["pos"] >= 0, r["pos"] <= z3.Length(r["inp"]))
+        s.ghost["it"] = z3.Int(fresh_name("it"))
+        return [s]
+
+    def mk_result(E_, s, nm):
+        return [(ghost.new_symmap(s, n=z3.Int(fresh_name("nres"))), [])]
+
+    def mk_bytes(E_, s, nm):
+        return [(BytesV(z3.String(fresh_name(nm))), [])]
+
+    def inv(E_, s, i):
+        cur = s.heap[me.ref]["sock"]
+        buf, res = s.env.get("buf"), s.env.get("result")
+        it = s.ghost["it"]
+        if not isinstance(cur, ghost.SockV) or not isinstance(buf, BytesV):
+            return [("kinds", z3.BoolVal(False))]
+        parts = [("stream-position", z3.Concat(buf.t, cur.unread(s)) == U(it)), ("items-consumed", z3.And(it >= 0, it <= N)),
+                 ("socket-still-open", z3.BoolVal(s.heap[cur.ref]["close_calls"] == 0))]
+        if isinstance(res, ghost.SymMapV):
+            vals, _n, present = res.get(s)
+            parts.append(("result-holds-the-last-item-read-under-the-callers-key",
+                          z3.Implies(it >= 1, z3.And(z3.Select(present, okey), z3.Select(vals, okey) == val_of(it - 1)))))
+            x = z3.Const("rk", Py)
+            parts.append(("result-has-no-other-key", z3.ForAll([x], z3.Implies(z3.Select(present, x), z3.And(x == okey, it >= 1)))))
+        elif isinstance(res, DictV) and not s.heap[res.ref]:
+            parts.append(("result-empty-before-the-first-item", it == 0))
+        else:
+            return [("kinds", z3.BoolVal(False))]
+        if E_.inv_mode == "assume":
+            parts.append(("unit", z3.And(M["facts"](it))))
+        return parts
+    E.loop_specs[(q, 0)] = LoopSpec(inv, vars={"result": mk_result, "buf": mk_bytes}, shape="while True", havoc=havoc)
+    args = [BytesV(name.encode()), st.new_list([keyv]), BoolV(expect_cas)]
+    kwargs = {"key_prefix": f["key_prefix"]}
+    expire = z3.Int("expire")
+    if with_expire:
+        st.assume(expire >= -(2 ** 63), expire < 2 ** 63)
+        kwargs["expire"] = IntV(expire)
+    for o in E.run_function(q, st, args, kwargs, selfv=me):
+        s = o.st
+        cur = s.heap[me.ref]["sock"]
+        socks = [r for r in s.heap.values() if isinstance(r, dict) and "inp" in r]
+        sent = [r for r in socks if r.get("sends", 0) > 0]
+        it = s.ghost["it"]
+        sp = z3.StringVal(" ")
+        spec = z3.Concat(*([z3.StringVal(name)] + ([sp, dec(expire)] if with_expire else []) + [sp, k, CRLF]))
+        if sent:
+            E.oblige("%s/command-is-'%s%s <key>'%s" % (wid, name, " <exptime>" if with_expire else "", E.case_suffix), s,
+                     z3.And(sent[0]["out"] == spec, z3.BoolVal(len(sent) == 1 and sent[0].get("sends", 0) == 1), defined,
+                            z3.Length(k) <= 250, nows(k)), func=q)
+        if o.kind == "return":
+            ignored = isinstance(o.val, DictV) and isinstance(cur, NoneV)
+            if ignored:
+                # the ignore_exc path: failure swallowed, empty dict, connection closed and dropped (C07)
+                E.oblige("%s/post@ret(ignore_exc:failure-returns-the-empty-result-with-the-connection-closed)%s" % (pid(E, "miss", q), E.case_suffix), s,
+                         z3.And(f["ignore_exc"].t, z3.BoolVal(len(s.heap[o.val.ref]) == 0 and closed_all(s, sock0))), func=q)
+                continue
+            E.oblige("%s/post@ret(Sync:the-whole-reply-and-nothing-else-was-consumed)%s" % (sid, E.case_suffix), s, z3.And(sync(E, s, me), it == N), func=q)
+            E.oblige("%s/post@ret(terminal-line-is-END-or-OK)%s" % (rid_, E.case_suffix), s, z3.Or(Term == z3.StringVal("END"), Term == z3.StringVal("OK")), func=q)
+            # C04/C05: what is returned under the caller's key is deserialize(key, exactly the data block, its flags)
+            if isinstance(o.val, ghost.SymMapV):
+                vals, _n, present = o.val.get(s)
+                anyk = z3.Const("anyk", Py)
+                goal = z3.And(z3.Implies(N >= 1, z3.And(z3.Select(present, okey), z3.Select(vals, okey) == val_of(N - 1))),
+                              z3.Implies(N == 0, z3.ForAll([anyk], z3.Not(z3.Select(present, anyk)))))
+            elif isinstance(o.val, DictV) and not s.heap[o.val.ref]:
+                goal = N == 0
+            else:
+                goal = z3.BoolVal(False)
+            E.oblige("%s/post@ret(hit:deserialize(callers-key,exact-data-block,flags)[,cas];miss:empty)%s" % (pid(E, "roundtrip", q), E.case_suffix), s, goal, func=q)
+        elif is_subclass(o.val.cls, "Exception"):
+            before_io = not sent and s.ghost.get("reads", 0) == 0
+            goal = sync(E, s, me) if before_io else z3.BoolVal(isinstance(cur, NoneV) and closed_all(s, sock0))
+            E.oblige("%s/post@raise(Exception:Sync-or-closed)%s" % (sid, E.case_suffix), s, goal, func=q, meta={"raised": o.val.cls, "site": str(o.site)})
+            if o.val.cls == "MemcacheIllegalInputError":
+                E.oblige("%s/post@raise(input-error:nothing-sent)%s" % (wid, E.case_suffix), s, z3.BoolVal(not sent and s.ghost.get("connects", 0) == 0), func=q)
+            E.oblige("%s/post@raise(never-with-ignore_exc-once-the-exchange-started)%s" % (pid(E, "miss", q), E.case_suffix), s,
+                     z3.Or(z3.Not(f["ignore_exc"].t), z3.BoolVal(before_io)), func=q, meta={"raised": o.val.cls})
+        else:
+            E.oblige("%s/post@raise(BaseException:Sync)%s" % (sid, E.case_suffix), s, sync(E, s, me), func=q, meta={"raised": o.val.cls})
+
+
+# ------------------------------------------------------------------ set family and get family on top of the exchange contracts
+
+def store_contract(E, st, args, kwargs, selfv, site):
+    """Contract of Client._store_cmd for a one-item dict (verified by verify_store_cmd for dicts of any size)."""
+    names = ["name", "values", "expire", "noreply", "flags", "cas"]
+    b = dict(zip(names, args))
+    b.update(kwargs)
+    me = selfv
+    st.ghost.setdefault("store_calls", []).append(dict(b, sync_at_call=sync(E, st, me)))
+    vals = b["values"]
+    if not isinstance(vals, DictV) or len(st.heap[vals.ref]) != 1:
+        raise OutOfReach("_store_cmd contract: expected a one-item dict literal")
+    key = st.heap[vals.ref][0][0]
+    verb = z3.simplify(b["name"].t).as_string() if isinstance(b["name"], BytesV) and z3.is_string_value(z3.simplify(b["name"].t)) else None
+    if verb not in DOC_VALID:
+        raise OutOfReach("_store_cmd called with verb %r" % verb)
+    outs = []
+    bad = st.fork()
+    bad.trace.append("illegal input")
+    outs.append(Outcome("raise", bad, ExcV("MemcacheIllegalInputError", [])))
+    f = st.fork()
+    cur = f.heap[me.ref]["sock"]
+    if isinstance(cur, ghost.SockV):
+        f.heap[cur.ref]["close_calls"] += 1
+    f.heap[me.ref]["sock"] = NONE
+    f.trace.append("_store_cmd fails")
+    outs.append(Outcome("raise", f, ExcV("Exception", exact=False)))
+    for s2, nr in E.branch(st, E.truth(b["noreply"], st)):
+        if isinstance(s2.heap[me.ref]["sock"], NoneV):
+            sk = ghost.new_sock(s2, "conn")
+            r = s2.heap[sk.ref]
+            r["connected"] = True
+            s2.assume(r["pos"] == z3.Length(r["inp"]))
+            s2.heap[me.ref]["sock"] = sk
+        if nr:
+            outs.append(Outcome("return", s2, s2.new_dict([(key, BoolV(True))])))
+        else:
+            lines = list(DOC_VALID[verb])
+            for j, ln in enumerate(lines):
+                s3 = s2.fork() if j < len(lines) - 1 else s2
+                s3.ghost["reply_line"] = ln
+                v = DOC_TABLE[ln]
+                s3.trace.append("server: " + ln)
+                outs.append(Outcome("return", s3, s3.new_dict([(key, NONE if v is None else BoolV(v))])))
+    return outs
+
+
+STORE_METHODS = {"set": "client", "add": "client", "replace": "client", "append": "client", "prepend": "client", "cas": False}
+
+
+def verify_public_store(E, mode="exception"):
+    install_env(E, mode)
+    E.contracts[C + "._store_cmd"] = store_contract
+    for meth, nrdef in STORE_METHODS.items():
+        q = "%s.%s" % (C, meth)
+        for nlabel, nrv in noreply_cases():
+            for flabel, flv in (("flags=None", NONE), ("flags=given", OpaqueV(z3.Const("flags_arg", Py)))):
+                E.case_suffix = "/%s,%s" % (nlabel, flabel)
+                st = State()
+                set_faults(st, mode)
+                me, sock0 = mk_client(st, True)
+                f = st.heap[me.ref]
+                st.ghost["store_calls"] = []
+                key, value, expire = OpaqueV(z3.Const("arg_key", Py)), OpaqueV(z3.Const("arg_value", Py)), OpaqueV(z3.Const("arg_expire", Py))
+                casv = BytesV(z3.String("cas_arg"))
+                args = [key, value] + ([casv] if meth == "cas" else [])
+                kwargs = {"expire": expire, "noreply": nrv, "flags": flv}
+                nr_eff = (f["default_noreply"].t if nrdef == "client" else z3.BoolVal(False)) if isinstance(nrv, NoneV) else nrv.t
+                for o in E.run_function(q, st, args, kwargs, selfv=me):
+                    s = o.st
+                    calls = s.ghost["store_calls"]
+                    wid, sid, rid_ = pid(E, "wire", q), pid(E, "sync", q), pid(E, "result", q)
+                    if not calls:
+                        # only cas can stop before the exchange (illegal cas token)
+                        E.oblige("%s/exit-before-the-exchange-only-for-an-illegal-cas-token%s" % (wid, E.case_suffix), s,
+                                 z3.BoolVal(meth == "cas" and o.kind == "raise" and o.val.cls == "MemcacheIllegalInputError"), func=q)
+                        continue
+                    c = calls[0]
+                    nrp = E.truth(c["noreply"], s)
+                    nrp = z3.BoolVal(nrp) if isinstance(nrp, bool) else nrp
+                    ent = s.heap[c["values"].ref]
+                    verb_ok = isinstance(c["name"], BytesV) and z3.is_string_value(z3.simplify(c["name"].t)) and z3.simplify(c["name"].t).as_string() == meth
+                    fwd = [z3.BoolVal(bool(verb_ok and len(calls) == 1 and len(ent) == 1 and ent[0][0] is key and ent[0][1] is value)),
+                           z3.BoolVal(c["expire"] is expire), z3.BoolVal(c.get("flags") is flv or (isinstance(flv, NoneV) and isinstance(c.get("flags"), NoneV)))]
+                    if meth == "cas":
+                        fwd.append(z3.And(c["cas"].t == casv.t, z3.InRe(casv.t, DIGITS)) if isinstance(c.get("cas"), BytesV) else z3.BoolVal(False))
+                    E.oblige("%s/one-%s-command-with-the-callers-key-value-expire-flags%s%s" % (wid, meth, "-and-a-decimal-cas-token" if meth == "cas" else "", E.case_suffix),
+                             s, z3.And(fwd), func=q)
+                    E.oblige("%s/waits-for-a-reply-iff-it-did-not-ask-for-noreply(documented-default)%s" % (sid, E.case_suffix), s, nrp == nr_eff, func=q)
+                    E.oblige("%s/Sync-at-exchange%s" % (sid, E.case_suffix), s, c["sync_at_call"], func=q)
+                    if o.kind == "return":
+                        E.oblige("%s/post@ret(Sync)%s" % (sid, E.case_suffix), s, sync(E, s, me), func=q)
+                        ln = s.ghost.get("reply_line")
+                        if ln is None:
+                            goal = z3.And(nrp, o.val.t) if isinstance(o.val, BoolV) else z3.BoolVal(False)
+                        else:
+                            want = DOC_TABLE[ln]
+                            got = (isinstance(o.val, NoneV) and want is None) or (isinstance(o.val, BoolV) and want is not None and z3.is_true(z3.simplify(o.val.t == want)))
+                            goal = z3.And(z3.Not(nrp), z3.BoolVal(bool(got)))
+                        E.oblige("%s/post@ret(documented-result:stored->True,not-stored/exists->False,not-found->None,noreply->True)%s" % (rid_, E.case_suffix), s, goal,
+                                 func=q, meta={"method": meth, "server": ln})
+                    elif is_subclass(o.val.cls, "Exception"):
+                        E.oblige("%s/post@raise(Exception:Sync)%s" % (sid, E.case_suffix), s, sync(E, s, me), func=q)
+    E.case_suffix = ""
+    E.contracts.pop(C + "._store_cmd", None)
+
+
+def fetch_contract(E, st, args, kwargs, selfv, site):
+    """Contract of Client._fetch_cmd for a one-key list (verified by verify_fetch_cmd): {} on a miss, {key: value} or
+    {key: (value, cas)} on a hit - under the caller's own key object -, {} with the connection dropped when a failure
+    is swallowed by ignore_exc, otherwise the failure propagates with the connection dropped."""
+    names = ["name", "keys", "expect_cas", "key_prefix", "expire"]
+    b = dict(zip(names, args))
+    b.update(kwargs)
+    me = selfv
+    st.ghost.setdefault("fetch_calls", []).append(dict(b, sync_at_call=sync(E, st, me)))
+    items = E.iter_items(b["keys"], st)
+    if items is None or len(items) != 1:
+        raise OutOfReach("_fetch_cmd contract: expected a one-key list")
+    key = items[0]
+    outs = []
+    bad = st.fork()
+    outs.append(Outcome("raise", bad, ExcV("MemcacheIllegalInputError", [])))
+    for s2, ign in E.branch(st.fork(), E.truth(st.heap[me.ref]["ignore_exc"], st)):
+        cur = s2.heap[me.ref]["sock"]
+        if isinstance(cur, ghost.SockV):
+            s2.heap[cur.ref]["close_calls"] += 1
+        s2.heap[me.ref]["sock"] = NONE
+        s2.ghost["fetch_outcome"] = "failure"
+        outs.append(Outcome("return", s2, s2.new_dict([])) if ign else Outcome("raise", s2, ExcV("Exception", exact=False)))
+    if isinstance(st.heap[me.ref]["sock"], NoneV):
+        sk = ghost.new_sock(st, "conn")
+        r = st.heap[sk.ref]
+        r["connected"] = True
+        st.assume(r["pos"] == z3.Length(r["inp"]))
+        st.heap[me.ref]["sock"] = sk
+    miss = st.fork()
+    miss.ghost["fetch_outcome"] = "miss"
+    outs.append(Outcome("return", miss, miss.new_dict([])))
+    st.ghost["fetch_outcome"] = "hit"
+    val = OpaqueV(z3.Const("fetched_value", Py), tag="value")
+    ec = E.truth(b["expect_cas"], st)
+    if ec is True or (not isinstance(ec, bool) and z3.is_true(z3.simplify(ec))):
+        hitv = TupleV([val, BytesV(z3.String("fetched_cas"))])
+    else:
+        hitv = val
+    st.ghost["hit_value"] = hitv
+    outs.append(Outcome("return", st, st.new_dict([(key, hitv)])))
+    return outs
+
+
+FETCH_METHODS = {"get": (False, False), "gets": (True, False), "gat": (False, True), "gats": (True, True)}
+
+
+def verify_public_fetch(E, mode="exception"):
+    install_env(E, mode)
+    E.contracts[C + "._fetch_cmd"] = fetch_contract
+    for meth, (cas, exp) in FETCH_METHODS.items():
+        q = "%s.%s" % (C, meth)
+        E.case_suffix = ""
+        st = State()
+        set_faults(st, mode)
+        me, sock0 = mk_client(st, True)
+        f = st.heap[me.ref]
+        st.ghost["fetch_calls"] = []
+        key, default, casd, expire = [OpaqueV(z3.Const(n, Py)) for n in ("arg_key", "arg_default", "arg_cas_default", "arg_expire")]
+        kwargs = {"default": default}
+        if cas:
+            kwargs["cas_default"] = casd
+        if exp:
+            kwargs["expire"] = expire
+        for o in E.run_function(q, st, [key], kwargs, selfv=me):
+            s = o.st
+            calls = s.ghost["fetch_calls"]
+            wid, sid, rid_, mid = pid(E, "wire", q), pid(E, "sync", q), pid(E, "result", q), pid(E, "miss", q)
+            if len(calls) != 1:
+                E.oblige("%s/exactly-one-exchange%s" % (wid, E.case_suffix), s, z3.BoolVal(False), func=q)
+                continue
+            c = calls[0]
+            items = E.iter_items(c["keys"], s)
+            name_ok = isinstance(c["name"], BytesV) and z3.is_string_value(z3.simplify(c["name"].t)) and z3.simplify(c["name"].t).as_string() == meth
+            ec = E.truth(c["expect_cas"], s)
+            ec = ec if isinstance(ec, bool) else (True if z3.is_true(z3.simplify(ec)) else (False if z3.is_false(z3.simplify(ec)) else None))
+            parts = [z3.BoolVal(bool(name_ok and items is not None and len(items) == 1 and items[0] is key and ec is cas)),
+                     z3.BoolVal(c.get("key_prefix") is f["key_prefix"]),
+                     z3.BoolVal((c.get("expire") is expire) if exp else (c.get("expire") is None or isinstance(c.get("expire"), NoneV)))]
+            E.oblige("%s/one-%s-command-for-the-callers-key-with-the-configured-prefix%s" % (wid, meth, E.case_suffix), s, z3.And(parts), func=q)
+            E.oblige("%s/Sync-at-exchange%s" % (sid, E.case_suffix), s, c["sync_at_call"], func=q)
+            outcome = s.ghost.get("fetch_outcome")
+            missv = TupleV([default, casd]) if cas else default
+            if o.kind == "return":
+                E.oblige("%s/post@ret(Sync)%s" % (sid, E.case_suffix), s, sync(E, s, me), func=q)
+                if outcome == "hit":
+                    hv = s.ghost["hit_value"]
+                    t = E.equal(o.val, hv, s)
+                    E.oblige("%s/post@ret(hit:the-fetched-value%s)%s" % (rid_, "-and-its-cas-token" if cas else "", E.case_suffix), s,
+                             z3.BoolVal(t) if isinstance(t, bool) else t, func=q)
+                else:
+                    t = E.equal(o.val, missv, s) if type(o.val) is type(missv) else False
+                    grp = mid if outcome == "failure" else rid_
+                    E.oblige("%s/post@ret(%s:%s)%s" % (grp, "ignore_exc-failure-looks-exactly-like-a-miss" if outcome == "failure" else "miss",
+                                                       "(default,cas_default)" if cas else "default", E.case_suffix), s,
+                             z3.BoolVal(t) if isinstance(t, bool) else t, func=q)
+            elif is_subclass(o.val.cls, "Exception"):
+                E.oblige("%s/post@raise(Exception:Sync)%s" % (sid, E.case_suffix), s, sync(E, s, me), func=q)
+    E.contracts.pop(C + "._fetch_cmd", None)
